@@ -30,6 +30,30 @@ if TYPE_CHECKING:
     from photon_weave.state.fock import Fock  # pragma: no cover
 
 
+def reduced_state(amplitudes: jnp.ndarray, tol: float = 1e-6) -> jnp.ndarray:
+    """
+    Returns the reduced state of a part of a vector state: a state vector if
+    the reduced state is pure, the density matrix otherwise (the kept systems
+    are entangled with the traced out systems)
+
+    Parameters
+    ----------
+    amplitudes: jnp.ndarray
+        Amplitudes of the vector state, reshaped into a matrix, where rows are
+        indexed by the kept systems and columns by the traced out systems
+    tol: float
+        Tolerance of the purity check
+    """
+    density_matrix = jnp.matmul(amplitudes, jnp.conj(amplitudes.T))
+    purity = jnp.trace(jnp.matmul(density_matrix, density_matrix)).real
+    if jnp.abs(purity - 1) < tol:
+        # Product state: every non zero column is proportional to the kept state
+        norms = jnp.linalg.norm(amplitudes, axis=0)
+        k = int(jnp.argmax(norms))
+        return (amplitudes[:, k] / norms[k]).reshape((-1, 1))
+    return density_matrix
+
+
 @dataclass(slots=True)
 class ProductState:
     """
@@ -470,17 +494,18 @@ class ProductState:
         """
         if self.expansion_level == ExpansionLevel.Vector:
             # Reshape the vector into tensor
-            shape = [s.dimensions for s in self.state_objs] + [1]
+            shape = [s.dimensions for s in self.state_objs]
             ps = self.state.reshape(shape)
 
-            # Compute einsum string
-            einsum = ESC.trace_out_vector(self.state_objs, list(states))
+            # Bring the kept states to the front (in the requested order)
+            kept_axes = [self.state_objs.index(s) for s in states]
+            traced_axes = [i for i in range(len(shape)) if i not in kept_axes]
+            new_dims = int(jnp.prod(jnp.array([s.dimensions for s in states])))
+            amplitudes = ps.transpose(kept_axes + traced_axes).reshape((new_dims, -1))
 
-            # Perform the tracing
-            traced_out_state = jnp.einsum(einsum, ps)
-
-            # Reshape and return
-            return traced_out_state.reshape((-1, 1))
+            # The reduced state is the partial trace of |psi><psi|, it is
+            # returned as a vector if it is pure
+            return reduced_state(amplitudes)
         elif self.expansion_level == ExpansionLevel.Matrix:
             # Reshape the matrix into tensor
             ps = self.state.reshape([s.dimensions for s in self.state_objs] * 2)
